@@ -277,6 +277,12 @@ func (f *flusher) flushMetadatasAndUnmarkDirty(key string, b *blob) error {
 
 func (f *flusher) flushMetadata(key, mdSuffix string) error {
 	md := metadata.CreateFromSuffix(mdSuffix)
+	if md == nil {
+		// DeleteMetadata accepts any suffix: one that no metadata type is registered for names nothing
+		// that could have been stored, so there is nothing to flush (and no object to read it into).
+		f.log.With("key", key, "mdSuffix", mdSuffix).Warn("Dirty metadata suffix does not parse as a metadata type, skipping")
+		return nil
+	}
 	ok, err := f.mem.GetMetadata(key, md)
 	if errors.Is(err, os.ErrNotExist) {
 		return nil
